@@ -207,7 +207,9 @@ func IssuerChainHeader(certs ...*Cert) string {
 	for _, c := range certs {
 		pemAll = append(pemAll, c.PEM()...)
 	}
-	return url.QueryEscape(string(pemAll))
+	// The PCS percent-encodes the PEM text (space -> %20, newline -> %0A, + / = escaped); Go's
+	// QueryEscape would write '+' for a space, which the real service does not do.
+	return strings.ReplaceAll(url.QueryEscape(string(pemAll)), "+", "%20")
 }
 
 // Header names as a Go net/http client presents them (canonical MIME form).
